@@ -30,11 +30,14 @@ def main():
     if "--check" in sys.argv:
         chk = sys.argv[sys.argv.index("--check") + 1]
     tier = "quick"
+    outn = n
+    if "--as" in sys.argv:
+        outn = int(sys.argv[sys.argv.index("--as") + 1])
     metas = json.load(open(os.path.join(inbox, "meta.json")))
     meta = metas[n - 1]
     patch = os.path.join(inbox, meta["patch"])
     demo = os.path.join(inbox, meta["demo"])
-    wt = "/tmp/sc-%s-%d" % (prop.lower(), n)
+    wt = "/tmp/sc-%s-%d" % (prop.lower(), outn)
     subprocess.run(["git", "-C", "/repo", "worktree", "remove", "--force", wt], capture_output=True)
     rc, out = run(["git", "-C", "/repo", "worktree", "add", "--detach", wt], "/")
     assert rc == 0, out
@@ -111,7 +114,7 @@ def main():
         res["detected"] = rc == 1 and bool(viol)
     finally:
         subprocess.run(["git", "-C", "/repo", "worktree", "remove", "--force", wt], capture_output=True)
-    out_dir = os.path.join(V, "seeded", "%s-%d" % (prop, n))
+    out_dir = os.path.join(V, "seeded", "%s-%d" % (prop, outn))
     os.makedirs(out_dir, exist_ok=True)
     prev_p = os.path.join(out_dir, "meta.json")
     if os.path.exists(prev_p):
